@@ -417,6 +417,10 @@ def gen_spec(rng):
     }
     if rng.random() < 0.04 and "H" in elem:
         spec["iso"] = elem.index("H")  # deuterium at that atom: no text format carries it
+    elif rng.random() < 0.05:
+        # a user mass that is no nuclide's (mass number unknown, -1) on some atoms — not all: like an isotope, no text format carries it
+        k = rng.randint(1, max(1, nat - 1))
+        spec["moff"] = {str(i): rng.choice([0.3, -0.2, 0.51]) for i in rng.sample(range(nat), k)}
     return spec
 
 
@@ -432,6 +436,11 @@ def build(spec):
         elea = [None] * len(spec["elem"])
         elea[spec["iso"]] = 2
         kw["elea"] = elea
+    if spec.get("moff"):
+        ms = [float(qcel.periodictable.to_mass(e)) for e in spec["elem"]]
+        for i, d in spec["moff"].items():
+            ms[int(i)] = round(ms[int(i)] + d, 6)
+        kw["mass"] = ms
     try:
         rec = from_arrays(
             geom=[float(x) for x in spec["geom"]], elem=spec["elem"], real=spec["real"], elbl=spec["elbl"], units=spec["units"],
@@ -517,7 +526,7 @@ def _roundtrip_case(ctx, out: Outcome, spec, fmt, units_out, prec, want_model=Tr
         readers = ["xyz+", None]  # auto-detection must reach a dialect that reads the writer's own text, whatever the unit spelt on the count line
         if not ghosts and units_out == "Angstrom":
             readers += ["xyz"]
-    default_mass = spec.get("iso") is None
+    default_mass = spec.get("iso") is None and not spec.get("moff")
     for rd in readers:
         tag = f"{fmt}->{rd or 'auto'}"
         r = impl_parse(text, rd)
@@ -608,7 +617,7 @@ def _file_roundtrip(ctx, out: Outcome, spec, ext):
         ok = ok and [str(x) for x in m2.atom_labels] == [str(x) for x in m.atom_labels]
         ok = ok and float(m2.molecular_charge) == float(m.molecular_charge) and int(m2.molecular_multiplicity) == int(m.molecular_multiplicity)
         ok = ok and bool(m2.fix_com) == bool(m.fix_com) and bool(m2.fix_orientation) == bool(m.fix_orientation)
-        if spec.get("iso") is None and hash_stable(m, 1.0, 12):  # psi4 files: Bohr, prec 12
+        if spec.get("iso") is None and not spec.get("moff") and hash_stable(m, 1.0, 12):  # psi4 files: Bohr, prec 12
             ok = ok and m2.get_hash() == m.get_hash()
     if not ok:
         out.violations.append(Finding("oracle:roundtrip_file", case, detail=f"molecule changed across to_file/from_file ({ext})"))
